@@ -8,7 +8,8 @@
 (* The static ASSUMEs tie the manual's rank column to operator.c's Priority column and the manual's    *)
 (* integer/float/string columns to the TypeCombinations + TryConvert arithmetic.                       *)
 EXTENDS Expr, TLC
-CONSTANTS TreeDepth, Atoms, FlatOps
+CONSTANTS TreeDepth, Atoms, FlatOps,
+          Variants    \* 1: minimal parentheses only; 3: also with blanks and fully parenthesised
 
 ASSUME RankOrderIsPriorityOrder ==
   \A i, j \in 1..NOps : (OpTable[i].rank < OpTable[j].rank) <=> (OpTable[i].pr < OpTable[j].pr)
@@ -56,8 +57,8 @@ Spec == Init /\ [][Next]_vars
 RoundTrip ==
   (mode = "tree" /\ t # None) =>
      /\ Parse(Unparse(t, FALSE, FALSE)) = t
-     /\ Parse(Unparse(t, TRUE, FALSE)) = t
-     /\ Parse(Unparse(t, FALSE, TRUE)) = t
+     /\ (Variants >= 3 => /\ Parse(Unparse(t, TRUE, FALSE)) = t
+                          /\ Parse(Unparse(t, FALSE, TRUE)) = t)
 
 Letters == <<"a", "b", "c", "d", "e", "f", "g">>
 RECURSIVE FlatChars(_, _)
